@@ -915,9 +915,12 @@ def needs_root_task(task_registry: TaskRegistry, expr: Any) -> bool:
     )
 
     default_kwargs = get_arg_defaults(task, expr.args, expr.kwargs)
+
+    # Task options may be expressions as well and they are evaluated within the parent job.
+    options = {**task.get_task_options(), **expr._options}
     return any(
         isinstance(arg, Expression)
-        for arg in iter_nested_value((expr.args, expr.kwargs, default_kwargs))
+        for arg in iter_nested_value((expr.args, expr.kwargs, default_kwargs, options))
     )
 
 
